@@ -164,6 +164,7 @@ def boundary_sources():
         out.append((f"gen/trychain_{n}", f"fn f() -> Result<u32, E> {{\n    let v = r#try!(context.{a}(argument_one)).config.test().method_two(argument_two);\n    let w = r#try!(r#try!(open({a}))).field_name.method_three(cccccccc, dddddddd);\n    Ok(v)\n}}\n"))
         out.append((f"gen/mdcomment_{n}", f"// A paragraph line that is definitely longer than the comment width of eighty columns, padded {a} so that it must be wrapped.\n// - a list item at the very end of the comment, long enough to need wrapping after the tail of the paragraph above it\nfn f() {{}}\n\n/// Documentation paragraph that is definitely longer than the comment width of eighty columns {a} and must be wrapped as well.\n/// 1. a numbered item at the very end, also long enough to need wrapping once the paragraph above has been wrapped\nfn g() {{}}\n"))
         out.append((f"gen/uchain_{n}", f"fn f() {{\n    let ok = привет_мир_{a} || ещё_один_идентификатор || третий_идентификатор || x;\n    let s = \"строка из кириллицы {a}\" == имя_переменной && другое_имя_переменной && z;\n}}\n"))
+        out.append((f"gen/parenattr_{n}", f"fn f() {{\n    let x = (#[allow(unused)] ({a} + bbbbbbbb));\n    let y = ((#[cfg(unix)] (({a} - cccccccc))));\n    foo((#[allow(unused_parens)] ({a})), 2);\n}}\n"))
         out.append((f"gen/tuple1_{n}", f"fn f((a,): (u32,), t: (u8,)) -> (u32,) {{\n    let (x,) = t;\n    let v{a} = match t {{\n        (y,) => y,\n    }};\n    for (k,) in items {{\n        g(|(c,)| c, Some((k,)), (x,), [(v{a},)]);\n    }}\n    if let Some((w,)) = opt {{\n        return ({a},);\n    }}\n    (a,)\n}}\n"))
         out.append((f"gen/quals_{n}", f"pub(crate) const unsafe extern \"C\" fn {a}<'a, T>(x: &'a mut T) -> impl Iterator<Item = &'a T> + 'a {{}}\npub async unsafe fn g{a}(self: Pin<&mut Self>) {{}}\n"))
     return out
